@@ -62,7 +62,7 @@ func genExt4Cfg(r *core.Rng, tier string, t *core.Trace, wide bool) {
 		}
 		t.Cfg["logflex"] = core.PickOf[int64](r, 0, 0, 1, 1, 2, 3) // groups per flex group = 2^n (0 = default 16)
 		t.Cfg["iratio"] = core.PickOf[int64](r, 0, 0, 8192, 16384, 65536, 1024, 2048)
-		t.Cfg["icount"] = core.PickOf[int64](r, 0, 0, 0, 128, 1000)
+		t.Cfg["icount"] = core.PickOf[int64](r, 0, 0, 0, 128, 1000, 16, 24, 32, 48, 64) // (the small ones: 8 inodes per group, the size of the reserved range, on volumes of two to eight groups)
 		if r.Chance(35) {
 			// a last block group of 0..3000 blocks behind 1..5 full ones: the sizes around which Create has to
 			// decide whether the last group can hold its own metadata
